@@ -6,7 +6,7 @@
    deque silently drops an entry; a port outside the arity makes set_nth a no-op).  Here the
    per-kind obligation is proved under a per-node state invariant `node_inv`, the invariant is
    shown to hold initially and to be preserved by update, and the accounting chain
-   run_actions / deliver / deliver_all / push / exec  is re-proved with the invariant threaded
+   run_actions / deliver / hand / hand_all / push / exec  is re-proved with the invariant threaded
    through.  No node kind has to be excluded. *)
 From Coq Require Import List ZArith Bool Lia Arith.
 From SZ Require Import Base.Values Sync.Nodes Sync.Pipeline Sync.PushSpec Sync.Dataflow Sync.RefCount.
@@ -524,17 +524,31 @@ Proof.
   rewrite Ew in C. lia.
 Qed.
 
-Lemma deliver_all_excess_inv g emitfrom depth n x m :
+(* one turn of the loop of _emit: the hand-over, or the release alone for a child that left since the snapshot *)
+Lemma hand_excess_inv g emitfrom depth n x m d w w' :
+  wf_dag g -> EmitSpec g emitfrom (S depth) -> ExcessSpecI g emitfrom -> WInvAbove g n w ->
+  is_down g n d = true ->
+  hand emitfrom g depth n x m (w, SOk) d = (w', SOk) ->
+  WInvAbove g n w' /\ forall r, excess g w' r = (excess g w r - occ m r)%Z.
+Proof.
+  intros Hdag HE HX Hwi Hdn H.
+  destruct (hand_cases emitfrom g depth n x m w SOk d) as [E|[_ [_ E]]]; rewrite E in H.
+  - eapply deliver_excess_inv; eauto.
+  - injection H as <-. split; [apply WInvAbove_release; exact Hwi|].
+    intros r. unfold excess. rewrite cnt_release, holders_release. lia.
+Qed.
+
+Lemma hand_all_excess_inv g emitfrom depth n x m :
   wf_dag g -> EmitSpec g emitfrom (S depth) -> ExcessSpecI g emitfrom ->
   forall l w w', WInvAbove g n w -> (forall d, In d l -> is_down g n d = true) ->
-  fold_left (deliver emitfrom g depth n x m) l (w, SOk) = (w', SOk) ->
+  fold_left (hand emitfrom g depth n x m) l (w, SOk) = (w', SOk) ->
   WInvAbove g n w' /\ forall r, excess g w' r = (excess g w r - Z.of_nat (length l) * occ m r)%Z.
 Proof.
   intros Hdag HE HX. induction l as [|d t IH]; intros w w' Hwi Hl H; cbn [fold_left] in H.
   - injection H as <-. split; [exact Hwi|]. intros r. cbn. lia.
-  - destruct (deliver emitfrom g depth n x m (w, SOk) d) as [w1 s1] eqn:E1.
-    pose proof (deliver_ok_inv _ _ _ _ _ _ _ _ _ _ H) as ->.
-    destruct (deliver_excess_inv _ _ _ _ _ _ _ _ _ Hdag HE HX Hwi (Hl d (or_introl eq_refl)) E1) as [A1 B1].
+  - destruct (hand emitfrom g depth n x m (w, SOk) d) as [w1 s1] eqn:E1.
+    pose proof (hand_ok_inv _ _ _ _ _ _ _ _ _ _ H) as ->.
+    destruct (hand_excess_inv _ _ _ _ _ _ _ _ _ Hdag HE HX Hwi (Hl d (or_introl eq_refl)) E1) as [A1 B1].
     destruct (IH w1 w' A1 (fun d' Hd' => Hl d' (or_intror Hd')) H) as [A2 B2].
     split; [exact A2|]. intros r. rewrite B2, B1. cbn [length]. lia.
 Qed.
@@ -543,7 +557,7 @@ Theorem push_excess_inv g : wf_dag g ->
   forall fuel depth, ExcessSpecI g (fun d => push fuel g depth d).
 Proof.
   intros Hdag. induction fuel as [|fuel IH]; intros depth d w y my w' Hwi H r; cbn [push] in H; [discriminate|].
-  destruct (deliver_all_excess_inv g _ depth d y my Hdag (push_spec g Hdag fuel (S depth)) (IH (S depth))
+  destruct (hand_all_excess_inv g _ depth d y my Hdag (push_spec g Hdag fuel (S depth)) (IH (S depth))
               (downs g w d) _ w' (WInvAbove_retain _ _ _ _ _ Hwi)
               (fun dd Hdd => downs_is_down _ _ _ _ Hdd) H) as [_ B].
   rewrite B. unfold excess. rewrite cnt_retain, holders_retain. lia.
